@@ -41,6 +41,10 @@ def cells(tier):
         out.append(cell(f"s{size} A3 cancelA1 slow ecb/ccb 0,1", sc, MON))
     sc = scen(pool(2, "SimpleTaskPool", ecb="plain", ccb="plain"), [[S("S", 2)], [["stop", 1], S("T", 1)]], outcomes=["ret"])
     out.append(cell("simple s2 S2|stop1,T1 (early stop)", sc, MON))
+    # a shrink issued from user code while a freed place is in transit, spawners of two groups waiting
+    sc = scen(pool(2), [[A("A", 2)], [A("B", 2)], [A("C", 1)], [["set_size", 1]]], outcomes=["ret"], ecb="plain", ccb="plain",
+              inline={"actors": [3], "at": ["ecb", "w_resume"]})
+    out.append(cell("inline s2->1 A2|B2|C1 resize@ecb/w_resume (two groups waiting)", sc, MON))
     # two pools given the same explicit name (legal): numbered independently
     sc = scen([pool(2, name="same"), pool(2, name="same")], [[A("A", 2)], [A("B", 2, p=1)]], outcomes=["ret"], ecb="plain", ccb="plain")
     out.append(cell("two pools named alike A2|B2@1", sc, MON, own_only=True))
